@@ -47,6 +47,10 @@ def setup(facts):
     def p_msg(ip_, st, fr, t, args):
         bus = st.mem[BUS_ROOT]
         css = bus.fields[bm.fi["cpu_state_sum"]]
+        if not (isinstance(args[1], Int) and isinstance(args[2], Int)):
+            st.tag("unknown-callee")     # the announced port / value was computed through something the interpreter does not follow: imprecise, decides nothing
+            st.add_eff(("msg", None, None, None))
+            return Enum(models.OK, [UNIT])
         st.add_eff(("msg", args[1].bits, args[2].bits, css.bits if isinstance(css, Int) else None))
         return Enum(models.OK, [UNIT])
     ip.primitives[k[0]] = p_msg
@@ -94,12 +98,20 @@ def dispatch(facts, res):
 
     def p_modw(ip_, st, fr, t, args):
         return UNIT
+    import cfg as cfgmod
+    k_write_ = facts.body("bus::Bus::write")["key"]
+    reach_ = cfgmod.CallGraph(facts).reachable(k_write_)
     for nm, kind in (("on_write_ddr", "ddr"), ("on_write_dr", "dr")):
+        if facts.find(nm)[0] not in reach_:
+            # the handlers this rule knows by name are not what Bus::write calls (the port logic was restructured): the routing
+            # cannot be stated in terms of them - not decidable, and the handler analysis keeps the 11-port window as its context
+            res.errors.append("routing: Bus::write does not reach %s: the routing rule is not decidable on this tree" % nm)
+            return {"ddr": None, "dr": None}
         ip.primitives[facts.find(nm)[0]] = p_port(kind)
     c = facts.find("write_registers")
     if len(c) == 1:
         ip.primitives[c[0]] = p_modw
-    outs = ip.run_all(facts.body("bus::Bus::write")["key"], [busref, Int(addr), Int(val)], mem)
+    outs = ip.run_all(k_write_, [busref, Int(addr), Int(val)], mem)
     if ip.unknown_callees:
         res.errors.append("routing: unmodelled callees in Bus::write: %r" % ip.unknown_callees)
     addr_ranks = set(Mx.var[b] for b in addr)
@@ -223,11 +235,8 @@ def run(ctx, res):
             p0 = bv.sub(addr, bv.const(base, 32))[:8]
             # the calling contexts Bus::write really produces (rule 0): panics are judged on them, the per-bit reference on the 11 ports
             ctx_ = valid
-            if routed.get(op) is None:
-                ctx_ = 1
-            else:
-                for a_ in routed[op]:
-                    ctx_ = Mx.OR(ctx_, bv.eq(addr, bv.const(a_, 32)))
+            for a_ in (routed.get(op) or ()):
+                ctx_ = Mx.OR(ctx_, bv.eq(addr, bv.const(a_, 32)))
         outs = ip.run_all(names[op][0], args, mem)
         if ip.unknown_callees:
             res.errors.append("unmodelled callees in %s: %r" % (names[op][0], ip.unknown_callees))
